@@ -2,6 +2,7 @@ package checks
 
 import (
 	"fmt"
+	"runtime"
 	"sort"
 	"strings"
 
@@ -49,6 +50,13 @@ func (c *svc) Assumptions() []string {
 // runWorld executes one configured world inside a bubble and reports harness trouble as a
 // panic (machinery error), goroutine leaks through the returned error.
 func runWorld(x *engine.Ctx, sim *service.Sim, w *service.World, mode string) error {
+	// swarm knob: a third of the runs execute on a single P, so that P-local runtime state
+	// (sync.Pool private slots, per-P caches) is shared between the tasks the scheduler interleaves
+	if x.T.Chance(1, 3) {
+		old := runtime.GOMAXPROCS(1)
+		defer runtime.GOMAXPROCS(old)
+		x.S.Count("runs_on_a_single_P")
+	}
 	err := sim.RunBubble(func() { w.Run(mode) })
 	if len(sim.Panics) > 0 {
 		panic("scheduler body panicked: " + sim.Panics[0])
